@@ -317,8 +317,8 @@ ClearCheck ==
        THEN /\ conn' = EmptyC /\ fail' = EmptyF /\ addsC' = EmptyC /\ addsF' = EmptyF
             /\ sinceClear' = 0 /\ clearedSincePub' = TRUE
        ELSE UNCHANGED <<conn, fail, addsC, addsF, sinceClear, clearedSincePub>>
-  /\ evIter' = FALSE
-  /\ UNCHANGED <<mstate, mmsg, http, tcp, acc, wrOk, sinceEvent, file, tmp, lastEv, dirty, crashes, winAggs>>
+  /\ evIter' = FALSE /\ lastEv' = NoEvent          \* (ghosts of this iteration's event)
+  /\ UNCHANGED <<mstate, mmsg, http, tcp, acc, wrOk, sinceEvent, file, tmp, dirty, crashes, winAggs>>
 
 Wake ==
   /\ Step("sleep", "kk_s")
@@ -433,7 +433,7 @@ MsgsWellFormed == \A o \in Msgs : IF o.len > MaxMsg THEN o.cut <= MaxMsg /\ o.cu
 
 \* P8
 EventCarriesPublishedStatus == [][(Published_ /\ evIter) => Pas(file') = lastEv]_vars
-EventOnlyWhenDue == [][(crashes' = crashes /\ (lastEv' # lastEv \/ (evIter' /\ ~evIter)))
+EventOnlyWhenDue == [][(crashes' = crashes /\ pc # "clear" /\ (lastEv' # lastEv \/ (evIter' /\ ~evIter)))
                          => (pc = "event" /\ sinceEvent >= EventAfter)]_vars
 EventWhenDue     == [][(pc = "event" /\ pc' = "create" /\ sinceEvent >= EventAfter)
                          => (evIter' /\ lastEv' = Pas(acc) /\ sinceEvent' = 0)]_vars
@@ -480,4 +480,7 @@ McGateTl  == {"KeyKeeper", "Redirector", "TelemetryLogger"}
 McTwo     == {"KeyKeeper", "Redirector"}
 McMsgMods == {"KeyKeeper", "TelemetryLogger"}
 McOneMod  == {"Redirector"}
+McKK      == {"KeyKeeper"}
+\* bound on the writes explored inside one iteration window (configurations with TrackInstants)
+McFewInstants == Cardinality(winAggs) <= 3
 =============================================================================
